@@ -14,8 +14,9 @@ HISTORY = {
            "and swaps): the change fails #3.inv-step.counters_count_the_labels (44 instances), and the native cross-check of that invariant fails too",
     "C11": "ExtendedFeatures.fit variants that start from stale fitted attributes were added after the agent's report was read, before this run",
     "C13": "TransformedTargetClassifier2.fit / _apply contracts with an opaque reciprocal transformer were added after the agent's report was read, before this run",
-    "C14": "the proof is undecided under the change (str.lower on a symbolic string is not modelled); caught by the bounded stand-in (upper-case stop-word corpus "
-           "added after the agent's report was read)",
+    "C14": "first run: the proof was undecided under the change (str.lower on a symbolic string was refused) and the bounded stand-in caught it (upper-case "
+           "stop-word corpus added after the agent's report was read).  Case mappings of a symbolic string are now an uninterpreted function (nothing "
+           "assumed about them): the change fails post.space_joined_tuple_is_scikit_learns_ngram_in_the_same_position",
     "C15": "SkBaseTransform.fit_transform contract added after the agent's report was read, before this run",
     "C12": "caught by the unbounded tree_node_parents contract; tree_node_range exceeds the generation budget under the change (undecided, reported as such)",
 }
